@@ -377,9 +377,26 @@ def _gen_once(rng, size, feat):
     return spec
 
 
-def choose_failure(rng: random.Random, spec: dict) -> dict | None:
-    """copy of the spec in which one transformer raises on one of the tags it processes"""
+def choose_failure(rng: random.Random, spec: dict, escape_prob: float = 0.3) -> dict | None:
+    """copy of the spec with one injected failure:
+    * a transformer raises on one of the tags it processes (`Transformer.run` catches it: the step ends FAILED and the
+      failure travels as TerminationToken(FAILED)), or
+    * (mode "escape") a scatter step is fed a non-list value through an inserted `sum` transformer: `ScatterStep.run`
+      does not catch the WorkflowDefinitionException, which reaches `StreamFlowExecutor._handle_exception` -> close()."""
     den = py_den(spec)
+    scatters = [n["id"] for n in spec["nodes"] if n["kind"] == "scatter" and den[n["ins"][0]]]
+    if scatters and rng.random() < escape_prob:
+        sid = rng.choice(scatters)
+        spec = json.loads(json.dumps(spec))
+        old_in = spec["nodes"][sid]["ins"][0]
+        newp = spec["nports"]
+        spec["nports"] += 1
+        nodes = spec["nodes"]
+        nodes.insert(sid, {"id": sid, "kind": "tf", "ins": [old_in], "outs": [newp], "fn": "sum", "k": 0, "fail": {"mode": "escape"}})
+        nodes[sid + 1]["ins"][0] = newp
+        for i, n in enumerate(nodes):
+            n["id"] = i
+        return spec
     cands = [(n["id"], tag) for n in spec["nodes"] if n["kind"] == "tf" for tag in den[n["ins"][0]]]
     if not cands:
         return None
